@@ -46,7 +46,7 @@ class Context:
         """ the search window of a rule around a gene on a ring as the code base builds it (cutoff on
             both sides, capped so that it cannot lap itself): (start, size, parts); parts is 1 for a
             window inside the record or one that became the whole record, 2 when it crosses the origin """
-        start, end, _ = self.case["genes"][index]
+        start, end = self.case["genes"][index][:2]
         size = end - start
         if end > self.length:
             # an origin-spanning gene: the window always crosses the origin unless it is everything
@@ -145,10 +145,17 @@ def spanning_hit_gene(ctx: Context, where: Dict[str, Any]) -> bool:
 
 
 def _gene_parts(ctx: Context, index: int) -> list:
+    """ the parts of a gene's location as (start, end) pairs: exons, each cut where it crosses the origin """
     gene = ctx.case["genes"][index]
-    if gene[1] > ctx.length:
-        return [(gene[0], ctx.length), (0, gene[1] - ctx.length)]
-    return [(gene[0], gene[1])]
+    length = ctx.length
+    parts = []
+    for low, high in (gene[3] if len(gene) > 3 else [(gene[0], gene[1])]):
+        low, high = low % length, low % length + (high - low)
+        if high > length:
+            parts.extend([(low, length), (0, high - length)])
+        else:
+            parts.append((low, high))
+    return parts
 
 
 def _lookup_as_coded(ctx: Context, window: Tuple[int, int, int]) -> set:
@@ -164,7 +171,7 @@ def _lookup_as_coded(ctx: Context, window: Tuple[int, int, int]) -> set:
     parts = {i: _gene_parts(ctx, i) for i in range(count)}
 
     def sort_key(i: int) -> Tuple[int, int]:
-        start, end, _ = ctx.case["genes"][i]
+        start, end = ctx.case["genes"][i][:2]
         return (start - length if end > length else start, end - start)
 
     order = sorted(range(count), key=sort_key)
